@@ -3,7 +3,6 @@ package harness
 import (
 	"bufio"
 	"encoding/json"
-	"encoding/xml"
 	"fmt"
 	"math"
 	"math/rand"
@@ -21,6 +20,9 @@ import (
 
 // C15: durations, instants and metadata round-trip through their XML text forms.
 //
+// Every marshal / generation step runs in the hand-over mode the spec chose for it
+// (c15_handover.go): how the value reaches encoding/xml, encoding/json or MarshalText.
+//
 // Forward direction: every vector spec/TimeDur.tla emits (value or text, the
 // model's text / parse result, the class derived from the statement) is run
 // through the real saml.Duration, saml.RelaxedTime, xml.Marshal/Unmarshal of
@@ -30,15 +32,18 @@ import (
 // spec/TimeDurTrace.tla validates with the spec's own Marshal / Unmarshal.
 
 type c15Vec struct {
-	Kind  string          `json:"kind"`
-	In    json.RawMessage `json:"in"`
-	Text  []string        `json:"text"`
-	Class string          `json:"class"`
-	Canon bool            `json:"canon"`
-	Back  json.RawMessage `json:"back"`
-	Want  []c15Civil      `json:"want"`
-	Tags  []string        `json:"tags"`
-	Gens  json.RawMessage `json:"gens"`
+	Kind     string          `json:"kind"`
+	How      c15How          `json:"how"`   // the hand-over mode the spec chose at the marshal / generation action
+	Found    bool            `json:"found"` // the model's method-set rule: does the encoder find the type's marshaller
+	Reparses *bool           `json:"reparses"`
+	In       json.RawMessage `json:"in"`
+	Text     []string        `json:"text"`
+	Class    string          `json:"class"`
+	Canon    bool            `json:"canon"`
+	Back     json.RawMessage `json:"back"`
+	Want     []c15Civil      `json:"want"`
+	Tags     []string        `json:"tags"`
+	Gens     json.RawMessage `json:"gens"`
 }
 
 type c15DurBack struct {
@@ -79,20 +84,41 @@ func c15EvalDur(v *c15Vec) c15Out {
 	var in c15Dur
 	json.Unmarshal(v.In, &in)
 	d, ok := in.Int64()
-	out := c15Out{Class: v.Class, Distinct: "dur:" + strconv.FormatInt(d, 10)}
+	how := v.How.N
+	if how == "" {
+		how = c15CallHow
+	}
+	out := c15Out{Class: v.Class, Distinct: "dur:" + how + ":" + strconv.FormatInt(d, 10)}
 	if !ok {
 		out.Broken = "vector duration outside int64: " + string(v.In)
 		return out
 	}
 	var mb c15DurBack
 	json.Unmarshal(v.Back, &mb)
+	o := c15RunDurVia(how, d)
+	out.Observed = o
+	if strings.HasPrefix(o.Panic, "harness:") {
+		out.Broken = o.Panic
+		return out
+	}
+	if v.Class != "MustAccept" {
+		// Duration 0 in a carrier that cannot omit it (attribute without omitempty, JSON string)
+		realOk := o.Panic == "" && o.MErr == "" && o.UErr == ""
+		if realOk != mb.Ok {
+			out.add(c15Verdict{Drift: fmt.Sprintf("model predicted ok=%t, real %+v", mb.Ok, o)})
+		}
+		return out
+	}
 	if want, ok := mb.D.Int64(); !mb.Ok || !ok || want != d {
 		out.Broken = "model does not round-trip its own vector " + string(v.In)
 		return out
 	}
-	o := c15RunDur(d)
-	out.Observed = o
-	out.add(c15JudgeDur(d, o, c15Join(v.Text), true))
+	jv := c15JudgeDur(d, o, c15Join(v.Text), true)
+	jv.Key = c15HowKey(jv.Key, "C15:duration:", v.How)
+	if jv.Key != "" && how != c15CallHow {
+		jv.Clause += " (handed over as " + how + ": " + o.Doc + ")"
+	}
+	out.add(jv)
 	return out
 }
 
@@ -153,15 +179,23 @@ func c15EvalInst(v *c15Vec) c15Out {
 	var in c15Inst
 	json.Unmarshal(v.In, &in)
 	t := in.Time()
-	out := c15Out{Class: v.Class, Distinct: "inst:" + string(v.In)}
+	how := v.How.N
+	if how == "" {
+		how = c15CallHow
+	}
+	out := c15Out{Class: v.Class, Distinct: "inst:" + how + ":" + string(v.In)}
 	if back := c15InstOf(t); back != in {
 		out.Broken = fmt.Sprintf("cannot concretise instant %+v (got %+v)", in, back)
 		return out
 	}
 	var mb c15InstBack
 	json.Unmarshal(v.Back, &mb)
-	o := c15RunInst(t)
+	o := c15RunInstVia(how, t)
 	out.Observed = o
+	if strings.HasPrefix(o.Panic, "harness:") {
+		out.Broken = o.Panic
+		return out
+	}
 	if v.Class == "MustAccept" {
 		// the statement's own oracle must agree with the spec's Want
 		hw := c15WantOf(t)
@@ -169,7 +203,12 @@ func c15EvalInst(v *c15Vec) c15Out {
 			out.Broken = fmt.Sprintf("harness RoundMs %+v differs from the spec's Want %+v for %+v", hw, v.Want, in)
 			return out
 		}
-		out.add(c15JudgeInst(t, o, v.Want, c15Join(v.Text), true))
+		jv := c15JudgeInst(t, o, v.Want, c15Join(v.Text), true)
+		jv.Key = c15HowKey(jv.Key, "C15:instant:", v.How)
+		if jv.Key != "" && how != c15CallHow {
+			jv.Clause += " (handed over as " + how + ": " + o.Doc + ")"
+		}
+		out.add(jv)
 		return out
 	}
 	realOk := o.Panic == "" && o.MErr == "" && o.UErr == ""
@@ -227,30 +266,53 @@ func c15EvalInstStr(v *c15Vec) c15Out {
 	return out
 }
 
-func c15Generation(v any, into any) (doc []byte, err error, panicMsg string) {
-	p, msg := safely(func() {
-		doc, err = xml.Marshal(v)
-		if err != nil {
-			err = fmt.Errorf("marshal: %w", err)
-			return
-		}
-		if e := xml.Unmarshal(doc, into); e != nil {
-			err = fmt.Errorf("unmarshal: %w", e)
-		}
-	})
-	if p {
-		return doc, fmt.Errorf("panic"), msg
+// c15Generation is one marshal/unmarshal generation of v handed to the encoder in mode how.
+func c15Generation[T any](how string, v *T, into *T) (doc []byte, err error, panicMsg string) {
+	doc, back, err, pm := c15GenVia(how, v)
+	if back != nil {
+		*into = *back
 	}
-	return doc, err, ""
+	return doc, err, pm
 }
 
-func c15EvalMd(v *c15Vec, seedLabel string) c15Out {
+// c15HowKeys puts the hand-over mode into the keys of one kind; c15FoundDrift compares which
+// marshaller wrote cacheDuration with the model's method-set rule.
+func c15HowKeys(out *c15Out, prefix string, how c15How) {
+	for i := range out.Verdicts {
+		if k := out.Verdicts[i].Key; k != "" {
+			out.Verdicts[i].Key = c15HowKey(k, prefix, how)
+			if how.N != c15DefaultXMLHow && how.N != "" {
+				out.Verdicts[i].Clause += " (handed to the encoder as " + how.N + ")"
+			}
+		}
+	}
+}
+
+func c15FoundDrift(out *c15Out, doc []byte, found bool) {
+	switch c15CacheDurationAttr(doc) {
+	case "xsd":
+		if !found {
+			out.add(c15Verdict{Drift: "the model's method-set rule says the type's marshaller is not found, the document has an xsd:duration cacheDuration"})
+		}
+	case "int":
+		if found {
+			out.add(c15Verdict{Drift: "the model's method-set rule says the type's marshaller is found, the document has an integer cacheDuration (written field by field)"})
+		}
+	}
+}
+
+func c15EvalMd(v *c15Vec, seedLabel string) (out c15Out) {
 	var s c15Shape
 	json.Unmarshal(v.In, &s)
 	var gens []c15MdGen
 	json.Unmarshal(v.Gens, &gens)
 	name := s.String()
-	out := c15Out{Class: v.Class, Distinct: "md:" + name}
+	how := v.How.N
+	if how == "" {
+		how = c15DefaultXMLHow
+	}
+	out = c15Out{Class: v.Class, Distinct: "md:" + how + ":" + name}
+	defer c15HowKeys(&out, "C15:md:", v.How)
 	if len(gens) == 0 {
 		out.Broken = "md vector without generations"
 		return out
@@ -259,8 +321,13 @@ func c15EvalMd(v *c15Vec, seedLabel string) c15Out {
 	obs := map[string]any{}
 	out.Observed = obs
 	var v1, v2 saml.EntityDescriptor
-	x1, err, pm := c15Generation(v0, &v1)
+	x1, err, pm := c15Generation(how, v0, &v1)
 	obs["doc1"] = string(x1)
+	if pm == "unknown mode" {
+		out.Broken = err.Error()
+		return out
+	}
+	c15FoundDrift(&out, x1, v.Found)
 	if err != nil {
 		obs["gen1_err"] = err.Error() + pm
 		if v.Class == "MustAccept" {
@@ -274,7 +341,7 @@ func c15EvalMd(v *c15Vec, seedLabel string) c15Out {
 		out.add(c15Verdict{Drift: "model predicted a parse error, the real code read the document"})
 	}
 	// fixed point after one generation: the re-parsed value is stable
-	x2, err, pm := c15Generation(&v1, &v2)
+	x2, err, pm := c15Generation(how, &v1, &v2)
 	obs["doc2"] = string(x2)
 	fpKey := "C15:md:fixedpoint:" + name
 	if err != nil {
@@ -283,7 +350,7 @@ func c15EvalMd(v *c15Vec, seedLabel string) c15Out {
 	}
 	if d := c15Diff(c15NormOf(&v1), c15NormOf(&v2), ""); d != "" {
 		out.add(c15Verdict{Key: "C15:md:fixedpoint:field=" + c15DiffPath(d), Clause: "no fixed point after one generation of " + name + "; generation 2 differs at " + d})
-	} else if x3, err := xml.Marshal(&v2); err != nil || string(x3) != string(x2) {
+	} else if x3, _, err, _ := c15GenVia(how, &v2); err != nil || string(x3) != string(x2) {
 		out.add(c15Verdict{Key: fpKey, Clause: "the document form is not stable after one generation"})
 	}
 	// preservation (statement: entity ID, http(s) endpoints, key descriptors, validity instant, cache duration)
@@ -374,24 +441,52 @@ func c15EpsKey(s c15Shape) string {
 	return strings.Join(p, ",")
 }
 
-func c15EvalEsd(v *c15Vec, seedLabel string) c15Out {
+func c15EvalEsd(v *c15Vec, seedLabel string) (out c15Out) {
 	var s c15EsdShape
 	json.Unmarshal(v.In, &s)
 	name := s.String()
-	out := c15Out{Class: v.Class, Distinct: "esd:" + name}
+	how := v.How.N
+	if how == "" {
+		how = c15DefaultXMLHow
+	}
+	out = c15Out{Class: v.Class, Distinct: "esd:" + how + ":" + name}
+	defer c15HowKeys(&out, "C15:esd:", v.How)
+	var gens []struct {
+		Err bool `json:"err"`
+	}
+	json.Unmarshal(v.Gens, &gens)
 	v0 := c15BuildESD(s, newRand("c15esd/"+seedLabel+"/"+name))
 	obs := map[string]any{}
 	out.Observed = obs
 	var v1, v2 saml.EntitiesDescriptor
-	x1, err, pm := c15Generation(v0, &v1)
+	x1, err, pm := c15Generation(how, v0, &v1)
 	obs["doc1"] = string(x1)
+	if pm == "unknown mode" {
+		out.Broken = err.Error()
+		return out
+	}
+	c15FoundDrift(&out, x1, v.Found)
+	if (err != nil) != (len(gens) > 0 && gens[0].Err) {
+		out.add(c15Verdict{Drift: fmt.Sprintf("model predicted unreadable=%t, real error: %v", len(gens) > 0 && gens[0].Err, err)})
+	}
 	if err != nil {
 		obs["gen1_err"] = err.Error() + pm
 		cd, _ := s.CD.V.Int64()
-		if s.CD.P && cd == 0 && strings.Contains(err.Error(), "unmarshal") {
+		if s.CD.P && cd == 0 && strings.Contains(err.Error(), "unmarshal") && strings.Contains(string(x1), `cacheDuration=""`) {
 			out.add(c15Verdict{Key: "C15:esd:cacheDuration-zero-ptr", Clause: "an EntitiesDescriptor whose CacheDuration points at 0 marshals to cacheDuration=\"\" which its own UnmarshalXML rejects: " + err.Error()})
 		} else {
-			out.add(c15Verdict{Key: "C15:esd:reparse-error:" + name, Clause: "an EntitiesDescriptor value does not survive one marshal/unmarshal generation: " + err.Error() + pm})
+			// abstract case: which optional parts the value has (not the whole shape: one defect, few keys)
+			cdc, vuc := "absent", "absent"
+			if s.CD.P {
+				cdc = "nonzero"
+				if cd == 0 {
+					cdc = "zero"
+				}
+			}
+			if s.VU.P {
+				vuc = "present"
+			}
+			out.add(c15Verdict{Key: fmt.Sprintf("C15:esd:reparse-error:cd=%s:vu=%s:nested=%d", cdc, vuc, s.Nested), Clause: "the EntitiesDescriptor " + name + " does not survive one marshal/unmarshal generation: " + err.Error() + pm})
 		}
 		return out
 	}
@@ -401,7 +496,7 @@ func c15EvalEsd(v *c15Vec, seedLabel string) c15Out {
 	if d := c15Diff(c15NormOf(v0), c15NormOf(&n1), ""); d != "" {
 		out.add(c15Verdict{Key: "C15:esd:not-equal:field=" + c15DiffPath(d), Clause: "the EntitiesDescriptor " + name + " re-parses to a different value at " + d})
 	}
-	x2, err, pm := c15Generation(&v1, &v2)
+	x2, err, pm := c15Generation(how, &v1, &v2)
 	obs["doc2"] = string(x2)
 	if err != nil {
 		out.add(c15Verdict{Key: "C15:esd:fixedpoint:" + name, Clause: "the re-parsed EntitiesDescriptor does not survive a second generation: " + err.Error() + pm})
@@ -412,10 +507,17 @@ func c15EvalEsd(v *c15Vec, seedLabel string) c15Out {
 }
 
 // c15EvalGenerated checks "every metadata document the library generates for an SP
-// or IdP re-parses to an equal value" for one generator configuration.
+// or IdP re-parses to an equal value" for one generator configuration, with the
+// generated value handed to the encoder in mode how (ServeMetadata: MarshalIndent of
+// the pointer; samlidp's service handler: Encoder.Encode of the stored value).
 // saml.TimeNow must already be set by the caller.
-func c15EvalGenerated(kind, name string, class string, gen func() *saml.EntityDescriptor) c15Out {
-	out := c15Out{Class: class, Distinct: kind + ":" + name}
+func c15EvalGenerated(kind, name string, v *c15Vec, gen func() *saml.EntityDescriptor) (out c15Out) {
+	how := v.How.N
+	if how == "" {
+		how = c15DefaultXMLHow
+	}
+	out = c15Out{Class: v.Class, Distinct: kind + ":" + how + ":" + name}
+	defer c15HowKeys(&out, "C15:"+kind+":", v.How)
 	obs := map[string]any{}
 	out.Observed = obs
 	var md *saml.EntityDescriptor
@@ -423,35 +525,34 @@ func c15EvalGenerated(kind, name string, class string, gen func() *saml.EntityDe
 		out.add(c15Verdict{Key: "C15:" + kind + ":panic:" + name, Clause: "Metadata() panicked: " + msg})
 		return out
 	}
-	for _, indent := range []bool{false, true} {
-		var doc []byte
-		var err error
-		if indent {
-			doc, err = xml.MarshalIndent(md, "", "  ") // what ServeMetadata writes
-		} else {
-			doc, err = xml.Marshal(md)
+	doc, back, err, pm := c15GenVia(how, md)
+	obs["doc"] = string(doc)
+	if pm == "unknown mode" {
+		out.Broken = err.Error()
+		return out
+	}
+	c15FoundDrift(&out, doc, v.Found)
+	if v.Reparses != nil && *v.Reparses != (err == nil) {
+		out.add(c15Verdict{Drift: fmt.Sprintf("model predicted reparses=%t, real error: %v", *v.Reparses, err)})
+	}
+	if err != nil {
+		what := "reparse-error"
+		if strings.HasPrefix(err.Error(), "marshal:") {
+			what = "marshal-error"
 		}
-		obs[fmt.Sprintf("doc_indent_%t", indent)] = string(doc)
-		if err != nil {
-			out.add(c15Verdict{Key: "C15:" + kind + ":marshal-error:" + name, Clause: "generated metadata does not marshal: " + err.Error()})
+		out.add(c15Verdict{Key: "C15:" + kind + ":" + what + ":" + name, Clause: "generated metadata document does not marshal and re-parse: " + err.Error() + pm})
+		return out
+	}
+	if back.CacheDuration != md.CacheDuration {
+		jv := c15JudgeDur(int64(md.CacheDuration), c15DurObs{Text: "cacheDuration attribute with a '.'", Back: int64(back.CacheDuration)}, "", false)
+		if jv.Key == "C15:duration:frac-float" {
+			jv.Clause = fmt.Sprintf("generated %s metadata: cacheDuration %s re-parses as %s (one nanosecond short)", kind, md.CacheDuration, back.CacheDuration)
+			out.add(jv)
 			return out
 		}
-		var back saml.EntityDescriptor
-		if err := xml.Unmarshal(doc, &back); err != nil {
-			out.add(c15Verdict{Key: "C15:" + kind + ":reparse-error:" + name, Clause: "generated metadata document does not re-parse: " + err.Error()})
-			return out
-		}
-		if back.CacheDuration != md.CacheDuration {
-			jv := c15JudgeDur(int64(md.CacheDuration), c15DurObs{Text: "cacheDuration attribute with a '.'", Back: int64(back.CacheDuration)}, "", false)
-			if jv.Key == "C15:duration:frac-float" {
-				jv.Clause = fmt.Sprintf("generated %s metadata: cacheDuration %s re-parses as %s (one nanosecond short)", kind, md.CacheDuration, back.CacheDuration)
-				out.add(jv)
-				continue
-			}
-		}
-		if d := c15Diff(c15NormOf(md), c15NormOf(&back), ""); d != "" {
-			out.add(c15Verdict{Key: "C15:" + kind + ":not-equal:field=" + c15DiffPath(d), Clause: "metadata generated for " + name + " re-parses to a different value at " + d})
-		}
+	}
+	if d := c15Diff(c15NormOf(md), c15NormOf(back), ""); d != "" {
+		out.add(c15Verdict{Key: "C15:" + kind + ":not-equal:field=" + c15DiffPath(d), Clause: "metadata generated for " + name + " re-parses to a different value at " + d})
 	}
 	return out
 }
@@ -527,6 +628,7 @@ func c15RandInst(rng *rand.Rand) time.Time {
 
 type c15Event struct {
 	K    string   `json:"k"`
+	How  string   `json:"how"` // hand-over mode (spec TextHows)
 	D    *c15Dur  `json:"d,omitempty"`
 	T    *c15Inst `json:"t,omitempty"`
 	Text []string `json:"text"`
@@ -558,7 +660,7 @@ func c15Report(rep *Report, out c15Out, replay func() map[string]any, counts map
 func TestC15(t *testing.T) {
 	rep := NewReport("C15")
 	defer rep.Finish(t)
-	rep.Rule = "every terminal state of spec/TimeDur.tla is replayed on the real code: durations on the boundary classes (all sub-second patterns with <= 2 non-zero digits of 9 plus dense ones, carries, signs, int64 extremes) through Duration.MarshalText/UnmarshalText; template- and item-generated duration strings (accept and reject side of the xsd:duration lexical space); instants at year 1/1969/1970/leap days/9999 x ms boundary +-1 ns and half-ms x zone offsets through RelaxedTime; field-mutated dateTime strings; EntityDescriptor shapes (endpoint binding x scheme table, optional parts) and EntitiesDescriptor shapes through two xml.Marshal/Unmarshal generations; ServiceProvider.Metadata/IdentityProvider.Metadata configurations; plus seeded random int64 durations and instants logged to trace.ndjson for TimeDurTrace.tla; non-trivial = class MustAccept or MustReject"
+	rep.Rule = "every terminal state of spec/TimeDur.tla is replayed on the real code: durations on the boundary classes (all sub-second patterns with <= 2 non-zero digits of 9 plus dense ones, carries, signs, int64 extremes) through Duration.MarshalText/UnmarshalText; template- and item-generated duration strings (accept and reject side of the xsd:duration lexical space); instants at year 1/1969/1970/leap days/9999 x ms boundary +-1 ns and half-ms x zone offsets through RelaxedTime; field-mutated dateTime strings; EntityDescriptor shapes (endpoint binding x scheme table, optional parts) and EntitiesDescriptor shapes through two xml.Marshal/Unmarshal generations; ServiceProvider.Metadata/IdentityProvider.Metadata configurations; every marshal / generation step in the hand-over mode the spec chose (20 modes for struct types: xml.Marshal / MarshalIndent / Encoder.Encode / EncodeElement of the value, a pointer, a pointer to an interface, the value as field / pointer field / slice, pointer-slice, array element / interface field of an enclosing struct passed by value or by pointer; 16 for Duration / RelaxedTime: direct call, XML element / attribute / omitempty attribute, JSON string, by value, pointer, slice element, map value, interface); a slots family over every struct type that carries an instant or a duration (metadata and protocol types, two nested trees) x all modes; plus seeded random int64 durations and instants, half of them through a random carrier, logged to trace.ndjson for TimeDurTrace.tla; non-trivial = class MustAccept or MustReject"
 	rep.Assume("error texts are not compared; equality of metadata values is modulo XMLName (set by encoding/xml on parse only), nil vs empty slices, and instants compared after rounding to the millisecond in UTC (the statement's equality for instants)")
 	lines := loadLines(t, "vectors.ndjson")
 	if len(lines) == 0 {
@@ -584,8 +686,19 @@ func TestC15(t *testing.T) {
 	// group the generator configurations by the clock they need (saml.TimeNow is a package variable)
 	byNow := map[int][]int{}
 	var plain []int
+	seenStruct, seenText, howCases := map[string]bool{}, map[string]bool{}, map[string]int{}
+	textHow := map[string]c15How{} // the model's record of each text-type mode (addressability by the spec's rule)
 	for i, v := range vecs {
 		kinds[v.Kind]++
+		switch v.Kind {
+		case "dur", "inst":
+			seenText[v.How.N] = true
+			textHow[v.How.N] = v.How
+			howCases[v.Kind+"/"+v.How.N]++
+		case "md", "esd", "slots", "spmd", "idpmd":
+			seenStruct[v.How.N] = true
+			howCases[v.Kind+"/"+v.How.N]++
+		}
 		if v.Kind == "spmd" || v.Kind == "idpmd" {
 			var c struct {
 				Now int `json:"now"`
@@ -612,16 +725,18 @@ func TestC15(t *testing.T) {
 			outs[i] = c15EvalMd(v, seedLabel)
 		case "esd":
 			outs[i] = c15EvalEsd(v, seedLabel)
+		case "slots":
+			outs[i] = c15EvalSlots(lines[i])
 		case "spmd":
 			var c c15SpCfg
 			json.Unmarshal(v.In, &c)
 			spv := c15BuildSP(c)
-			outs[i] = c15EvalGenerated("spmd", fmt.Sprintf("%+v", c), v.Class, spv.Metadata)
+			outs[i] = c15EvalGenerated("spmd", fmt.Sprintf("%+v", c), v, spv.Metadata)
 		case "idpmd":
 			var c c15IdpCfg
 			json.Unmarshal(v.In, &c)
 			idp := c15BuildIdP(c)
-			outs[i] = c15EvalGenerated("idpmd", fmt.Sprintf("%+v", c), v.Class, idp.Metadata)
+			outs[i] = c15EvalGenerated("idpmd", fmt.Sprintf("%+v", c), v, idp.Metadata)
 		default:
 			outs[i] = c15Out{Broken: "unknown vector kind " + v.Kind}
 		}
@@ -667,28 +782,45 @@ func TestC15(t *testing.T) {
 	rcase := make([]map[string]any, 2*n)
 	durs := make([]int64, n)
 	insts := make([]time.Time, n)
-	rd, ri := newRand("c15/random/dur"), newRand("c15/random/inst")
+	rd, ri, rh := newRand("c15/random/dur"), newRand("c15/random/inst"), newRand("c15/random/how")
+	hows := make([]string, 2*n)
+	howNames := c15TextHowNames()
 	for i := 0; i < n; i++ {
 		durs[i] = c15RandDur(rd)
 		insts[i] = c15RandInst(ri)
+		// half of the events through the direct call, half through a random carrier
+		hows[i], hows[n+i] = c15CallHow, c15CallHow
+		if rh.Intn(2) == 0 {
+			hows[i] = howNames[rh.Intn(len(howNames))]
+		}
+		if rh.Intn(2) == 0 {
+			hows[n+i] = howNames[rh.Intn(len(howNames))]
+		}
 	}
 	parallel(n, func(i int) {
 		d := durs[i]
-		o := c15RunDur(d)
-		jv := c15JudgeDur(d, o, "", false)
+		o := c15RunDurVia(hows[i], d)
+		class := "MustAccept"
+		var jv c15Verdict
+		if d == 0 && c15CannotOmit(hows[i]) {
+			class = "DontCare" // Duration 0 in a carrier that cannot omit it
+		} else {
+			jv = c15JudgeDur(d, o, "", false)
+			jv.Key = c15HowKey(jv.Key, "C15:duration:", textHow[hows[i]])
+		}
 		rec, back := c15DurOf(d), c15DurOf(o.Back)
 		ok := o.Panic == "" && o.MErr == "" && o.UErr == ""
 		if !ok {
 			back = c15DurOf(0)
 		}
-		events[i] = c15Event{K: "dur", D: &rec, Text: c15Chars(o.Text), Ok: ok, Back: back, Dev: jv.Key}
-		routs[i] = c15Out{Class: "MustAccept", Distinct: "rand:dur:" + strconv.FormatInt(d, 10), Observed: o}
+		events[i] = c15Event{K: "dur", How: hows[i], D: &rec, Text: c15Chars(o.Text), Ok: ok, Back: back, Dev: jv.Key}
+		routs[i] = c15Out{Class: class, Distinct: "rand:dur:" + hows[i] + ":" + strconv.FormatInt(d, 10), Observed: o}
 		routs[i].add(jv)
-		rcase[i] = map[string]any{"case": "random-duration", "d": strconv.FormatInt(d, 10)}
+		rcase[i] = map[string]any{"case": "random-duration", "d": strconv.FormatInt(d, 10), "how": textHow[hows[i]]}
 	})
 	parallel(n, func(i int) {
 		tm := insts[i]
-		o := c15RunInst(tm)
+		o := c15RunInstVia(hows[n+i], tm)
 		rec := c15InstOf(tm)
 		want := c15WantOf(tm)
 		class := "MustAccept"
@@ -700,12 +832,13 @@ func TestC15(t *testing.T) {
 		var jv c15Verdict
 		if class == "MustAccept" {
 			jv = c15JudgeInst(tm, o, want, "", false)
+			jv.Key = c15HowKey(jv.Key, "C15:instant:", textHow[hows[n+i]])
 		}
 		ok := o.Panic == "" && o.MErr == "" && o.UErr == ""
-		events[n+i] = c15Event{K: "inst", T: &rec, Text: c15Chars(o.Text), Ok: ok, Back: o.Back, Dev: jv.Key}
-		routs[n+i] = c15Out{Class: class, Distinct: "rand:inst:" + tm.Format(time.RFC3339Nano), Observed: o}
+		events[n+i] = c15Event{K: "inst", How: hows[n+i], T: &rec, Text: c15Chars(o.Text), Ok: ok, Back: o.Back, Dev: jv.Key}
+		routs[n+i] = c15Out{Class: class, Distinct: "rand:inst:" + hows[n+i] + ":" + tm.Format(time.RFC3339Nano), Observed: o}
 		routs[n+i].add(jv)
-		rcase[n+i] = map[string]any{"case": "random-instant", "t": rec}
+		rcase[n+i] = map[string]any{"case": "random-instant", "t": rec, "how": textHow[hows[n+i]]}
 	})
 	f, err := os.Create(filepath.Join(workDir(), "trace.ndjson"))
 	if err != nil {
@@ -736,7 +869,17 @@ func TestC15(t *testing.T) {
 	if rep.Classes["MustAccept"] == 0 || rep.Classes["MustReject"] == 0 {
 		rep.Break("vacuous: no MustAccept or no MustReject cases")
 	}
-	for _, k := range []string{"dur", "durstr", "inst", "inststr", "md", "esd", "spmd", "idpmd"} {
+	c15CheckHowTables(rep, seenStruct, seenText)
+	rep.Extra["c15_cases_per_handover_mode"] = howCases
+	// the registered configuration has the deviation PointerReceiverMarshaller off; the phase before this one
+	// runs TLC with it on (spec/TimeDur_C15dev.cfg) and must have produced a counterexample
+	if m, _ := filepath.Glob(filepath.Join(workDir(), "tlc_violation_*.txt")); len(m) == 0 {
+		rep.Break("TLC did not refute the round trip under the deviation PointerReceiverMarshaller (no tlc_violation_*.txt in the work directory): the hand-over dimension of the model is vacuous")
+	} else {
+		rep.Note("model self-test: with PointerReceiverMarshaller on (TimeDur_C15dev.cfg) TLC refutes SlotsRoundTrip")
+	}
+	rep.Extra["failures_outside_the_statement_protocol_type_with_absent_optional_instant"] = c15OutsideFailures.Load()
+	for _, k := range []string{"dur", "durstr", "inst", "inststr", "md", "esd", "spmd", "idpmd", "slots"} {
 		if kinds[k] == 0 {
 			rep.Break("vacuous: no %s vectors", k)
 		}
@@ -752,6 +895,7 @@ func init() {
 			SeedLabel string          `json:"seed_label"`
 			D         string          `json:"d"`
 			T         c15Inst         `json:"t"`
+			How       c15How          `json:"how"`
 		}
 		if err := json.Unmarshal(raw, &r); err != nil {
 			t.Fatal(err)
@@ -760,14 +904,24 @@ func init() {
 		switch r.Case {
 		case "random-duration":
 			d, _ := strconv.ParseInt(r.D, 10, 64)
-			o := c15RunDur(d)
+			if r.How.N == "" {
+				r.How = c15How{N: c15CallHow, Addr: true}
+			}
+			o := c15RunDurVia(r.How.N, d)
 			out.Observed = o
-			out.add(c15JudgeDur(d, o, "", false))
+			jv := c15JudgeDur(d, o, "", false)
+			jv.Key = c15HowKey(jv.Key, "C15:duration:", r.How)
+			out.add(jv)
 		case "random-instant":
 			tm := r.T.Time()
-			o := c15RunInst(tm)
+			if r.How.N == "" {
+				r.How = c15How{N: c15CallHow, Addr: true}
+			}
+			o := c15RunInstVia(r.How.N, tm)
 			out.Observed = o
-			out.add(c15JudgeInst(tm, o, c15WantOf(tm), "", false))
+			jv := c15JudgeInst(tm, o, c15WantOf(tm), "", false)
+			jv.Key = c15HowKey(jv.Key, "C15:instant:", r.How)
+			out.add(jv)
 		default:
 			v := &c15Vec{}
 			if err := json.Unmarshal(r.Vector, v); err != nil {
@@ -786,6 +940,8 @@ func init() {
 				out = c15EvalMd(v, r.SeedLabel)
 			case "esd":
 				out = c15EvalEsd(v, r.SeedLabel)
+			case "slots":
+				out = c15EvalSlots(r.Vector)
 			case "spmd", "idpmd":
 				var c struct {
 					Now int `json:"now"`
@@ -796,11 +952,11 @@ func init() {
 				if v.Kind == "spmd" {
 					var sc c15SpCfg
 					json.Unmarshal(v.In, &sc)
-					out = c15EvalGenerated("spmd", fmt.Sprintf("%+v", sc), v.Class, c15BuildSP(sc).Metadata)
+					out = c15EvalGenerated("spmd", fmt.Sprintf("%+v", sc), v, c15BuildSP(sc).Metadata)
 				} else {
 					var ic c15IdpCfg
 					json.Unmarshal(v.In, &ic)
-					out = c15EvalGenerated("idpmd", fmt.Sprintf("%+v", ic), v.Class, c15BuildIdP(ic).Metadata)
+					out = c15EvalGenerated("idpmd", fmt.Sprintf("%+v", ic), v, c15BuildIdP(ic).Metadata)
 				}
 			}
 		}
